@@ -1,8 +1,8 @@
 """C03 — recorded episodes are causal and loss-free on every connection."""
 from pyvc.driver import check_property
-from . import async_node, async_conn
+from . import async_node, async_conn, async_misc
 
-UNITS = [u for u in async_node.UNITS + async_conn.UNITS if "C03" in u.props]
+UNITS = [u for u in async_node.UNITS + async_conn.UNITS + async_misc.UNITS if "C03" in u.props]
 
 
 def check(tier, seed):
